@@ -1211,7 +1211,9 @@ func imageHasAlpha(img image.Image) bool {
 	for y := b.Min.Y; y < b.Max.Y; y++ {
 		for x := b.Min.X; x < b.Max.X; x++ {
 			_, _, _, a := img.At(x, y).RGBA()
-			if a != 0xFFFF {
+			// The pixels are consumed through their 8-bit reading (alpha = a>>8):
+			// 0xff00..0xfffe is opaque there and must not call for an alpha plane.
+			if a>>8 != 0xff {
 				return true
 			}
 		}
